@@ -484,6 +484,9 @@ theorem takeWhile_prefix {p : UInt8 → Bool} (a r : Bytes) (ha : ∀ c ∈ a, p
 theorem isdigit_not_space (c : UInt8) (h : isdigit c = true) : isspace c = false := by
   revert h; revert c; apply UInt8.forall_of_fin; decide +kernel
 
+theorem isdigit_not_sign (c : UInt8) (r : Bytes) (h : isdigit c = true) : (hd (c :: r) == 43 || hd (c :: r) == 45) = false := by
+  rw [hd_cons]; revert h; revert c; apply UInt8.forall_of_fin; decide +kernel
+
 theorem scanU_fmtNat (n : Nat) (r : Bytes) (hr : isdigit (hd r) = false) : scanU (fmtNat n ++ r) = some (n, r) := by
   obtain ⟨hd1, hne, hval⟩ := fmtNat_digits n
   obtain ⟨c, cs, hcs⟩ := List.exists_cons_of_ne_nil hne
@@ -492,8 +495,14 @@ theorem scanU_fmtNat (n : Nat) (r : Bytes) (hr : isdigit (hd r) = false) : scanU
     exact skipSpace_nonspace c _ (isdigit_not_space c (hd1 c (by rw [hcs]; simp)))
   have htw : (fmtNat n ++ r).takeWhile isdigit = fmtNat n :=
     takeWhile_prefix _ _ hd1 (by cases r with | nil => left; rfl | cons x y => right; simpa using hr)
+  have hsg : (hd (fmtNat n ++ r) == 43 || hd (fmtNat n ++ r) == 45) = false := by
+    rw [hcs]; exact isdigit_not_sign c _ (hd1 c (by rw [hcs]; simp))
+  have hsg2 : (hd (fmtNat n ++ r) == 45) = false := by
+    rw [Bool.or_eq_false_iff] at hsg; exact hsg.2
   unfold scanU
-  simp only [hsp, htw, hval, List.drop_left]
+  simp only [hsp]
+  rw [hsg, hsg2]
+  simp only [Bool.false_eq_true, if_false, htw, hval, List.drop_left, wrapU, Bool.false_and]
   rw [hcs]
   simp
 
